@@ -63,8 +63,41 @@ pub fn lj(input: &str, out: &str) {
                     .map(|p| (p[0].as_i64().unwrap() as f64, p[1].as_i64().unwrap() as f64))
                     .collect()
             };
-            let c2 = e["c2"].as_i64().unwrap();
-            let cutoff = if c2 == 0 { None } else { Some((c2 as f64).sqrt()) };
+            // ca2 / cb2: squared cutoffs of the particles of A and of B; c2: the pair's (LJMol!PairCut)
+            let ca2 = e["c2"].as_i64().unwrap();
+            let cb2 = e["cb2"].as_i64().unwrap_or(ca2);
+            let c2 = e["pc2"].as_i64().unwrap_or(ca2);
+            let cut = |c: i64| if c == 0 { None } else { Some((c as f64).sqrt()) };
+            if ca2 != cb2 {
+                // molecules with different cutoffs: the sum over the particle pairs of the real pair
+                // energy, from either side, before and after a common motion
+                let mkc = |v: &[(f64, f64)], m: &Matrix3<f64>, c: Option<f64>| LJShape2 {
+                    name: "m".into(),
+                    items: v.iter().map(|(x, y)| LJ2 { position: mv(m, *x, *y), sigma: 1., epsilon: 1., cutoff: c }).collect(),
+                };
+                for m in motions() {
+                    let (a, b) = (mkc(&pts("a"), &m, cut(ca2)), mkc(&pts("b"), &m, cut(cb2)));
+                    let mut expect = 0.;
+                    let mut scale = 0.;
+                    for p in a.items.iter() {
+                        for q in b.items.iter() {
+                            let t = p.energy(q);
+                            expect += t;
+                            scale += t.abs();
+                        }
+                    }
+                    let (eab, eba) = (a.energy(&b), b.energy(&a));
+                    evaluations += 2;
+                    let tol = 1e-9 * f64::max(scale, 1e-3);
+                    if !((eab - expect).abs() <= tol) || !((eba - expect).abs() <= tol) {
+                        failures.push(json!({"what": "energy of two molecules with different cutoffs differs from the sum over their particle pairs (or between the two sides)",
+                            "state": e, "observed": {"e_ab": eab, "e_ba": eba, "sum_over_pairs": expect}}));
+                        break;
+                    }
+                }
+                continue;
+            }
+            let cutoff = cut(c2);
             let mk = |v: &[(f64, f64)], m: &Matrix3<f64>| LJShape2 {
                 name: "m".into(),
                 items: v
